@@ -149,6 +149,13 @@ def op_table():
     T["bbox"] = lambda da, aux: da.spec.partition.bbox([dict(fmin=float(da.freq.min()) * 0.5, fmax=float(da.freq.max()) * 0.9 + 0.01, dmin=1.0, dmax=100.0)])
     T["bbox(no-limits)"] = lambda da, aux: da.spec.partition.bbox([dict(fmin=float(da.freq.min()) * 0.5)])
     T["ptm1_track"] = lambda da, aux: da.spec.partition.ptm1_track(aux["wspd"], aux["wdir"], aux["dpt"])
+    # a transform followed by a statistic: spectra without a direction dimension (oned(), isel(dir=k)) and band limits
+    fmid = lambda da: (float(da.freq.values.min()) * 1.01, float(da.freq.values.max()) * 0.99)  # noqa
+    T["oned().split(band)"] = lambda da, aux: da.spec.oned().spec.split(fmin=fmid(da)[0], fmax=fmid(da)[1]) if da.freq.size > 1 else da.spec.oned().spec.split()
+    T["oned().stats(band)"] = lambda da, aux: da.spec.oned().spec.stats(["hs", "tp", "tm01"], fmax=fmid(da)[1]) if da.freq.size > 1 else da.spec.oned().spec.stats(["hs"])
+    T["isel(dir=0).stats"] = lambda da, aux: da.isel(dir=0, drop=True).spec.stats(["hs", "tm02", "tp"])
+    T["smooth().hs()"] = lambda da, aux: da.spec.smooth(1, 1).spec.hs()
+    T["interp(freq).tp()"] = lambda da, aux: da.spec.interp(freq=np.array([0.04, 0.08, 0.2])).spec.tp()
     T["dataset.hs"] = lambda da, aux: da.to_dataset().spec.hs()
     T["dataset.stats"] = lambda da, aux: da.to_dataset().spec.stats(["hs", "tp"])
     return T
